@@ -189,6 +189,26 @@ partial def loop (h : IO.FS.Stream) (s : DS) : IO Unit := do
       | some i =>
         let (st', r) := checkSet realHash st d i v (blobText v)
         IO.println s!"> set {stName r}"; loop h (putW w st')
+  | ["setfn", c, v] =>
+    -- kdump_set_filenames(ctx, 1, &name): the file set grows to one file if it is smaller (never shrinks), then
+    -- file.set.0.name is set (persistent) or, for a NULL name, cleared
+    match world c.toNat! with
+    | none => IO.println "> bad-op"; loop h s
+    | some (w, d, st) =>
+      match lookup realHash st d (some "file.set.number") with
+      | none => IO.println "> setfn nodata"; loop h s
+      | some num =>
+        let cur := match st.get num with
+          | some n => ((n.val.drop 4).toString.toNat?).getD 0      -- get_num_files reads the stored number, set or not
+          | none => 0
+        let (st1, r1) := if cur < 1 then checkSet realHash st d num "num:1" else (st, .ok)
+        if r1 != .ok then do IO.println s!"> setfn {stName r1}"; loop h (putW w st1)
+        else
+          match lookup realHash st1 d (some "file.set.0.name") with
+          | none => IO.println "> setfn ok"; loop h (putW w st1)
+          | some nm =>
+            let (st2, r2) := checkSet realHash st1 d nm (if v == "-" then "nil" else "str:" ++ v)
+            IO.println s!"> setfn {stName r2}"; loop h (putW w st2)
   | ["nfiles", c, n] =>
     match world c.toNat! with
     | none => IO.println "> bad-op"; loop h s
